@@ -32,6 +32,7 @@ import (
 	consensusspec "github.com/attestantio/go-eth2-client/spec"
 	"github.com/attestantio/go-eth2-client/spec/phase0"
 	"github.com/attestantio/vouch/services/beaconblockproposer"
+	"github.com/attestantio/vouch/services/blockrelay"
 	"github.com/attestantio/vouch/services/metrics"
 	"github.com/attestantio/vouch/util"
 	"github.com/pkg/errors"
@@ -93,7 +94,7 @@ func (s *Service) submitValidatorRegistrations(ctx context.Context) {
 		s.log.Debug().Msg("No validating accounts; not submiting validator registrations")
 		return
 	}
-	if s.executionConfig == nil {
+	if s.currentExecutionConfig() == nil {
 		monitorValidatorRegistrations(false, time.Since(started))
 		s.log.Debug().Msg("No execution config; not submiting validator registrations")
 		return
@@ -112,7 +113,10 @@ func (s *Service) submitValidatorRegistrationsForAccounts(ctx context.Context,
 	ctx, span := otel.Tracer("attestantio.vouch.services.blockrelay.standard").Start(ctx, "submitValidatorRegistrationsForAccounts")
 	defer span.End()
 
-	if s.executionConfig == nil {
+	// Obtain the execution configuration once, under its lock, and use it for all of the accounts; the
+	// configuration can be replaced by a refresh at any time.
+	executionConfig := s.currentExecutionConfig()
+	if executionConfig == nil {
 		return errors.New("no execution configuration; cannot submit validator registrations at current")
 	}
 
@@ -121,6 +125,7 @@ func (s *Service) submitValidatorRegistrationsForAccounts(ctx context.Context,
 	relayRegistrations := make(map[string][]*builderapi.VersionedSignedValidatorRegistration)
 	for _, account := range accounts {
 		accountConsensusRegistrations, err := s.generateValidatorRegistrationsForAccount(ctx,
+			executionConfig,
 			account,
 			controlledValidators,
 			relayRegistrations,
@@ -161,6 +166,7 @@ func (s *Service) submitValidatorRegistrationsForAccounts(ctx context.Context,
 }
 
 func (s *Service) generateValidatorRegistrationsForAccount(ctx context.Context,
+	executionConfig blockrelay.ExecutionConfigurator,
 	account e2wtypes.Account,
 	controlledValidators map[phase0.BLSPubKey]struct{},
 	relayRegistrations map[string][]*builderapi.VersionedSignedValidatorRegistration,
@@ -171,7 +177,7 @@ func (s *Service) generateValidatorRegistrationsForAccount(ctx context.Context,
 	pubkey := util.ValidatorPubkey(account)
 	controlledValidators[pubkey] = struct{}{}
 
-	proposerConfig, err := s.executionConfig.ProposerConfig(ctx, account, pubkey, s.fallbackFeeRecipient, s.fallbackGasLimit)
+	proposerConfig, err := executionConfig.ProposerConfig(ctx, account, pubkey, s.fallbackFeeRecipient, s.fallbackGasLimit)
 	if err != nil {
 		return nil, errors.Wrap(err, "No proposer configuration; cannot submit validator registrations")
 	}
